@@ -73,6 +73,8 @@ def pick_n(r, tier):
     c = r.random()
     if c < 0.25:
         return r.randint(1, 4)
+    if c < 0.35:
+        return r.choice([2, 8, 16, 17, 32, 64, 128])          # powers of two / batch sizes
     if c < 0.7:
         return r.randint(5, 40)
     return r.randint(41, 200 if tier == "quick" else 400)
@@ -296,6 +298,8 @@ def check_rs(line, meta, h, dq, df, dw, stats):
     neff_h = unhex(ht[p]); p += 1
     same = ht[p]; p += 1
     shape = [int(x) for x in ht[p:p + 13]]
+    if len(ht) > p + 13 and ht[p + 13] != "neff-same":
+        probs.append(("prop", "neff-wrong", "neff queried before and after the call gives different answers"))
     normalised = meta["style"] != "subnormalised"
     tol = Fraction(n * EPS)
     c = cum_sums(e)
